@@ -166,6 +166,32 @@ def ob_provenance(ctx):
     return True
 
 
+def ob_unused_named(ctx):
+    """an assembly that succeeds with a superfluous module (UnusedModules warning) still names every supplied module"""
+    st = ctx.stack
+    Mod, Vec = sliced_classes(st)
+    import warnings
+
+    sp = (2, 3, 6, 7)
+    recs = [st.record.CircularRecord(st.Seq(tags(9, 12 * i)), id=nm) for i, nm in enumerate(["used-1", "spare-2", "vec-3"])]
+    o_extra = ctx.mk.seq("ox", 2, "ACGT")
+    ctx.assume(And(Not(seq_eq(o_extra, "AA")), Not(seq_eq(o_extra, "CC")), Not(seq_eq(o_extra, "TT")), Not(seq_eq(o_extra, "GG")),
+                   Not(seq_eq(o_extra, "AT")), Not(seq_eq(o_extra, "TA")), Not(seq_eq(o_extra, "CG")), Not(seq_eq(o_extra, "GC"))))
+    used = Mod(recs[0], st.Seq("AA"), st.Seq("CC"), module_spans(*sp))
+    spare = Mod(recs[1], st.Seq(o_extra), st.Seq("CC"), module_spans(*sp))
+    vec = Vec(recs[2], st.Seq("CC"), st.Seq("AA"), module_spans(*sp))
+    with warnings.catch_warnings(record=True) as caught:
+        warnings.simplefilter("always")
+        prod = vec.assemble(*([spare, used] if ctx.P["spare_first"] else [used, spare]), id="p", name="p")
+    ctx.require(any(isinstance(w.message, st.errors.UnusedModules) for w in caught), "no-unused-warning")
+    comment = prod.annotations.get("comment")
+    text = "\n".join(comment) if isinstance(comment, (list, tuple)) else str(comment)
+    ctx.require(all(nm in text for nm in ("used-1", "spare-2", "vec-3")), "comment-does-not-name-every-supplied-module")
+    src = [f for f in prod.features if f.type == "source"]
+    ctx.require(sorted(f.qualifiers.get("plasmid") for f in src) == ["used-1", "vec-3"], "source-features-of-an-unused-module")
+    return True
+
+
 def obligations(tier, seed):
     obs = []
     idsets = [["mod-A", "mod_B", "the.vector"], ["m0", "m1", "v"]]
@@ -176,6 +202,9 @@ def obligations(tier, seed):
                 obs.append(Ob("provenance m=%d symbolic spans in element %d n=%d" % (m, sym, n), ob_provenance,
                               dict(m=m, sym=sym, n=n, ids=ids, pid="prod.1", pname="my product", level2=False),
                               samples=5, cost=n * n * 30))
+    for spare_first in (False, True):
+        obs.append(Ob("superfluous module still named (spare %s)" % ("first" if spare_first else "last"), ob_unused_named,
+                      dict(spare_first=spare_first), samples=4, cost=100))
     for m in (1, 2):
         for pid in ("lvl1", idsets[0][0], "assembly"):
             ids = idsets[0][:m] + [idsets[0][2]]
